@@ -745,6 +745,55 @@ impl<const P: u8, const G: i8, const N: usize, const D: usize> Dut for NbDut<P, 
                 self.dev = dev;
                 self.env.borrow_mut().bump("probe.restore-settings-before-session");
             }
+            None if self.env.borrow().cfg.restore_into_used => {
+                // the device the stored session is installed into has a past of its own
+                let variant = self.env.borrow().op_idx % 3;
+                let (refs, pending) = {
+                    let mut e = self.env.borrow_mut();
+                    e.txn = Txn::default();
+                    e.fault = None;
+                    e.cursor = [0; 5];
+                    (e.refs.clone(), e.pending_join.clone())
+                };
+                match variant {
+                    0 => {
+                        // re-installed on the running device
+                        self.env.borrow_mut().push(Ev::Note("the stored session is re-installed on the running device".into()));
+                        self.env.borrow_mut().bump("probe.restore-into-running-device");
+                    }
+                    1 => {
+                        // the fresh device first tried to join; nobody answered (the network never heard it either)
+                        self.dev = Self::build(&self.env, None);
+                        self.env.borrow_mut().push(Ev::Note("the fresh device first tries to join; nobody answers".into()));
+                        let r = self.join();
+                        if r.is_panic() {
+                            return Err(format!("PANIC in the join attempt before the restore: {r:?}"));
+                        }
+                        self.env.borrow_mut().bump("probe.restore-after-unanswered-join");
+                    }
+                    _ => {
+                        // the fresh device first runs on another session for one uplink
+                        let other = {
+                            let e = self.env.borrow();
+                            make_session(&e.id.foreign, 7, Some(3))
+                        };
+                        self.dev = Self::build(&self.env, Some(other));
+                        self.env.borrow_mut().push(Ev::Note("the fresh device first sends one uplink on another session".into()));
+                        let r = self.send(&[0xA5, 0x5A, 0x01], 9, false);
+                        if r.is_panic() {
+                            return Err(format!("PANIC in the uplink before the restore: {r:?}"));
+                        }
+                        self.env.borrow_mut().bump("probe.restore-after-other-session");
+                    }
+                }
+                {
+                    // none of that reached the network
+                    let mut e = self.env.borrow_mut();
+                    e.refs = refs;
+                    e.pending_join = pending;
+                }
+                self.dev.set_session(s);
+            }
             None => self.dev = Self::build(&self.env, Some(s)),
         }
         Ok(())
